@@ -13,7 +13,10 @@ def main():
     seed = a.seed if a.seed is not None else common.seed_from_env()
     mod = importlib.import_module('hv.checks.' + a.prop.lower())
     if a.replay:
-        return mod.replay(a.replay)
+        if hasattr(mod, 'replay'):
+            return mod.replay(a.replay)
+        from . import rt
+        return rt.replay_generic(a.prop, a.replay)
     return mod.main(a.tier, seed)
 
 
